@@ -713,11 +713,111 @@ def tr_after_recycle(ss):
     ], {"recycle_keeps_inflight": keep, "define_rejects_inflight": rej}
 
 
-def tr_mark_step_pending():
+def tr_mark_step_pending(ss):
+    """Workflow.mark_step_pending, executed symbolically for each of the five step states: which state (if any)
+    does it write into the step's own row?  Recognised statements: `state = step.get_state()`, tests over `state`
+    (==, !=, in, not in, and/or/not), `return`, `pass`, `step.set_state(StepState.X[, deferred])`; any other
+    statement is skipped provided it neither returns nor writes the state of `step` (file bookkeeping, logging).
+    Result: `mark_pending_writes : N -> option N` (what the code does, whatever its layout); the proofs state what
+    the model needs of it (mark_pending_translated)."""
     tree = parse_module(f"{CORE}/workflow.py")
-    src = norm(ast.unparse(find_function(tree, "mark_step_pending", "Workflow")))
-    if "if state in (StepState.RUNNING, StepState.CHECKING): return step.set_state(StepState.PENDING)" not in src:
-        raise TranslatorError("Workflow.mark_step_pending: RUNNING/CHECKING no-op or PENDING write changed")
+    fn = find_function(tree, "mark_step_pending", "Workflow")
+    from .astutil import body_without_docstring
+    args = [a.arg for a in fn.args.args]
+    if args != ["self", "step"]:
+        raise TranslatorError(f"Workflow.mark_step_pending: parameters {args}")
+    names = {f"StepState.{k}": v for k, v in ss.items()}
+
+    class Unknown(Exception):
+        pass
+
+    def val(e, env):
+        src = ast.unparse(e)
+        if src in names:
+            return names[src]
+        if isinstance(e, ast.Name) and e.id in env:
+            return env[e.id]
+        if isinstance(e, (ast.Tuple, ast.List, ast.Set)):
+            return [val(x, env) for x in e.elts]
+        raise Unknown(src)
+
+    def test(e, env):
+        if isinstance(e, ast.BoolOp):
+            vs = [test(v, env) for v in e.values]
+            return all(vs) if isinstance(e.op, ast.And) else any(vs)
+        if isinstance(e, ast.UnaryOp) and isinstance(e.op, ast.Not):
+            return not test(e.operand, env)
+        if isinstance(e, ast.Compare) and len(e.ops) == 1:
+            l, r, op = val(e.left, env), val(e.comparators[0], env), e.ops[0]
+            if isinstance(op, (ast.Eq, ast.Is)):
+                return l == r
+            if isinstance(op, (ast.NotEq, ast.IsNot)):
+                return l != r
+            if isinstance(op, ast.In):
+                return l in r
+            if isinstance(op, ast.NotIn):
+                return l not in r
+        raise Unknown(ast.unparse(e))
+
+    def touches(node):
+        """does the subtree return, or write the state of `step`?"""
+        for n in ast.walk(node):
+            if isinstance(n, ast.Return):
+                return True
+            if isinstance(n, ast.Call) and ast.unparse(n.func) in ("step.set_state", "step.mark_completed",
+                                                                     "step.initialize_row", "step.after_recycle"):
+                return True
+            if isinstance(n, ast.Call) and ast.unparse(n.func) == "self.mark_step_pending" \
+                    and n.args and ast.unparse(n.args[0]) == "step":
+                return True
+        return False
+
+    def run(stmts, env, writes):
+        """returns True when the function returned"""
+        for st in stmts:
+            if isinstance(st, ast.Pass):
+                continue
+            if isinstance(st, ast.Return):
+                return True
+            if isinstance(st, ast.Assign) and len(st.targets) == 1 and isinstance(st.targets[0], ast.Name):
+                if ast.unparse(st.value) == "step.get_state()":
+                    env[st.targets[0].id] = env["@state"]
+                    continue
+                if touches(st):
+                    raise TranslatorError("Workflow.mark_step_pending: assignment not recognised: " + ast.unparse(st)[:120])
+                env.pop(st.targets[0].id, None)
+                continue
+            if isinstance(st, ast.If):
+                try:
+                    t = test(st.test, env)
+                except Unknown:
+                    if touches(st):
+                        raise TranslatorError("Workflow.mark_step_pending: a test the translator cannot evaluate guards a "
+                                              "state write or a return: " + ast.unparse(st.test)[:120]) from None
+                    continue
+                if run(st.body if t else st.orelse, env, writes):
+                    return True
+                continue
+            if isinstance(st, ast.Expr) and isinstance(st.value, ast.Call) and ast.unparse(st.value.func) == "step.set_state":
+                a0 = st.value.args
+                if not a0 or ast.unparse(a0[0]) not in names:
+                    raise TranslatorError("Workflow.mark_step_pending: set_state argument not recognised")
+                writes.append(names[ast.unparse(a0[0])])
+                env["@state"] = writes[-1]
+                continue
+            if touches(st):
+                raise TranslatorError("Workflow.mark_step_pending: statement not recognised: " + ast.unparse(st)[:120])
+        return False
+
+    table = {}
+    for k, v in ss.items():
+        writes = []
+        run(body_without_docstring(fn), {"@state": v}, writes)
+        table[k] = writes[-1] if writes else None
+    arms = "".join(f"if N.eqb state {ss[k]}%N then {'None' if table[k] is None else f'Some {table[k]}%N'} else "
+                   for k in ("PENDING", "RUNNING", "CHECKING", "SUCCEEDED", "FAILED"))
+    return ("(* Workflow.mark_step_pending executed for each state: the state it writes into the step's row, if any *)\n"
+            f"Definition mark_pending_writes (state : N) : option N :=\n  {arms}None."), table
 
 
 class _SlotTest:
@@ -897,34 +997,69 @@ def tr_builder():
     if len(loops) != 1:
         raise TranslatorError("job_loop: expected one top-level while loop")
     cls, waiting = _waiting_counters(tree)
+    # Which methods of Builder register a task (write running_tasks), directly or through helpers: the call graph
+    # inside the class decides, not the names (a helper extracted from start_task/start_hash_task is fine).
+    methods = {n.name: n for n in cls.body if isinstance(n, (ast.FunctionDef, ast.AsyncFunctionDef))}
+
+    def writes_slots(fnode):
+        for n in ast.walk(fnode):
+            if isinstance(n, (ast.Assign, ast.AugAssign, ast.AnnAssign)):
+                tgts = n.targets if isinstance(n, ast.Assign) else [n.target]
+                if any(isinstance(tg, ast.Subscript) and ast.unparse(tg.value) == "self.running_tasks" for tg in tgts):
+                    return True
+                if any(ast.unparse(tg) == "self.running_tasks" for tg in tgts):
+                    return True
+            if isinstance(n, ast.Call) and ast.unparse(n.func) in ("self.running_tasks.setdefault", "self.running_tasks.update"):
+                return True
+        return False
+
+    calls = {m: {n.func.attr for n in ast.walk(f) if isinstance(n, ast.Call) and isinstance(n.func, ast.Attribute)
+                 and ast.unparse(n.func.value) == "self" and n.func.attr in methods} for m, f in methods.items()}
+    registrars = {m for m, f in methods.items() if writes_slots(f)}
+    if "job_loop" in registrars:
+        raise TranslatorError("job_loop writes running_tasks itself")
+    grew = True
+    while grew:
+        grew = False
+        for m in methods:
+            if m != "job_loop" and m not in registrars and calls[m] & registrars:
+                registrars.add(m)
+                grew = True
+    if not registrars:
+        raise TranslatorError("no method of Builder registers a task in running_tasks")
+    for m in methods:
+        if m != "job_loop" and m not in registrars and calls[m] & registrars:
+            raise TranslatorError(f"Builder.{m} registers a task outside job_loop")   # unreachable by construction
+    reg_calls = {f"self.{m}" for m in registrars}
     guards = []
     tests = {}
     for st in loops[0].body:
         if isinstance(st, ast.If):
-            src = ast.unparse(st)
-            if "start_hash_task" in src or "start_task" in src:
+            inner_calls = [ast.unparse(n.func) for n in ast.walk(st) if isinstance(n, ast.Call)]
+            if any(c in reg_calls for c in inner_calls):
                 if st.orelse:
                     raise TranslatorError("job_loop: a guarded task start has an else branch")
-                kind = "hash" if "start_hash_task" in src else "job"
-                if "start_hash_task" in src and "self.start_task" in src:
-                    raise TranslatorError("job_loop: both kinds of task are started under one test")
+                pops_job = "self.scheduler.pop_next_job" in inner_calls
+                pops_hash = "self.hash_queue.pop_nowait" in inner_calls
+                if pops_job == pops_hash:
+                    raise TranslatorError("job_loop: a guarded start must take its work either from scheduler.pop_next_job "
+                                          "or from hash_queue.pop_nowait")
+                kind = "job" if pops_job else "hash"
                 tr = _SlotTest(cls, waiting)
                 tests[kind] = (tr.boolean(st.test), sorted(tr.used), ast.unparse(st.test))
                 guards.append((None, kind, st))
     if sorted(g[1] for g in guards) != ["hash", "job"]:
         raise TranslatorError("job_loop: expected exactly one guarded hash start and one guarded job start")
-    # every start_* call in the loop body lies inside one of the guarded ifs, and each guarded
+    # every registering call in the loop body lies inside one of the guarded ifs, and each guarded
     # block `continue`s right after starting (one start per guard evaluation)
     for _, kind, st in guards:
-        calls = [n for n in ast.walk(st) if isinstance(n, ast.Call) and ast.unparse(n.func) in
-                 ("self.start_task", "self.start_hash_task")]
-        if len(calls) != 1:
+        ncalls = [n for n in ast.walk(st) if isinstance(n, ast.Call) and ast.unparse(n.func) in reg_calls]
+        if len(ncalls) != 1:
             raise TranslatorError("job_loop: more than one task start under one guard")
-        inner = [s for s in ast.walk(st) if isinstance(s, ast.If) and s is not st]
+        inner = [x for x in ast.walk(st) if isinstance(x, ast.If) and x is not st]
         if len(inner) != 1 or not isinstance(inner[0].body[-1], ast.Continue):
             raise TranslatorError("job_loop: guarded start is not followed by `continue`")
-    n_calls_loop = sum(1 for n in ast.walk(fn) if isinstance(n, ast.Call) and ast.unparse(n.func) in
-                       ("self.start_task", "self.start_hash_task"))
+    n_calls_loop = sum(1 for n in ast.walk(fn) if isinstance(n, ast.Call) and ast.unparse(n.func) in reg_calls)
     if n_calls_loop != 2:
         raise TranslatorError("job_loop: unguarded task start")
     # who writes running_tasks / who calls the starters / who launches commands, over stepup/core
@@ -949,7 +1084,7 @@ def tr_builder():
                                 writers.append(f"{rel}:{qn}")
                     if isinstance(n, ast.Call):
                         fu = ast.unparse(n.func)
-                        if fu.endswith(".start_task") or fu.endswith(".start_hash_task"):
+                        if any(fu.endswith("." + m) for m in registrars):
                             starters.append(f"{rel}:{qn}")
                         if fu == "launch_command" or fu.endswith(".launch_command"):
                             launchers.append(f"{rel}:{qn}")
@@ -967,8 +1102,15 @@ def tr_builder():
         "launch_command_callers": uniq(launchers), "execute_job_callers": uniq(exec_callers),
         "run_command_callers": uniq(runcmd_callers),
     }
+    bqn = {f"{CORE}/builder.py:Builder.{m}" for m in registrars}
+    if not set(facts["running_tasks_writers"]) <= bqn:
+        raise TranslatorError(f"structure: running_tasks is written outside Builder's registering methods: {facts['running_tasks_writers']}")
+    outside = [c for c in facts["task_starters"] if c not in bqn and c != f"{CORE}/builder.py:Builder.job_loop"]
+    if outside:
+        raise TranslatorError(f"structure: a task is registered from {outside} (only Builder.job_loop may start tasks)")
+    facts["task_starters"] = [c for c in facts["task_starters"] if c not in bqn]
+    facts["task_registrars"] = sorted(bqn)
     expect = {
-        "running_tasks_writers": [f"{CORE}/builder.py:Builder.start_hash_task", f"{CORE}/builder.py:Builder.start_task"],
         "task_starters": [f"{CORE}/builder.py:Builder.job_loop"],
         "launch_command_callers": [f"{CORE}/executor.py:Executor._run_command"],
         "execute_job_callers": [f"{CORE}/job.py:RunJob.coro"],
@@ -987,7 +1129,7 @@ def tr_builder():
         raise TranslatorError("RunJob.runs_command changed")
     # promoted hash jobs do not touch running_tasks
     ph = ast.unparse(find_function(tree, "run_promoted_hash_jobs", "Builder"))
-    if "running_tasks" in ph or "start_task" in ph:
+    if "running_tasks" in ph or any(f"self.{m}(" in ph for m in registrars):
         raise TranslatorError("run_promoted_hash_jobs touches the slot bookkeeping")
     td = norm(ast.unparse(find_function(tree, "_task_done", "Builder")))
     if "job = self.running_tasks.pop(task)" not in td:
@@ -1053,7 +1195,8 @@ def generate():
     parts += tr_hold_release()
     rec_defs, shape = tr_after_recycle(ss)
     parts += rec_defs
-    tr_mark_step_pending()
+    mp, mp_table = tr_mark_step_pending(ss)
+    parts.append(mp)
     parts.append("Definition dispatch_code (has_hash : bool) : N := if has_hash then code_CHECKING else code_RUNNING.")
     slot, facts = tr_builder()
     parts.append(slot)
